@@ -24,7 +24,10 @@ type Env struct {
 	noInst  bool
 	recSym  string
 	entryVars map[string]Val
+	atCallSite bool
 }
+
+var errSkipClause = fmt.Errorf("clause not usable at a call site")
 
 func (f *FnCtx) newEnv(pkg string, heap, old *Heap, vars map[string]Val, results []Val) *Env {
 	if pkg == "" {
@@ -734,6 +737,9 @@ func (e *Env) evalCall(n *ECall) (Val, error) {
 		// the value of an expression right after the function's (last) lock acquisition:
 		// the reference point for postconditions over lock-guarded state, which other
 		// goroutines may change until the lock is taken
+		if e.atCallSite {
+			return Val{}, errSkipClause // the callee's lock-time state is not visible to the caller
+		}
 		if f.lastLockHeap == nil {
 			return Val{}, fmt.Errorf("atlock(): the function acquires no lock of a type with guarded fields")
 		}
